@@ -253,7 +253,7 @@ var (
 	debug  = os.Getenv("C13_DEBUG") != ""
 )
 
-// histories: every sequence of up to two prior activities. E = another block executed (not
+// histories: every sequence of up to two prior activities (plus three with the large block H). E = another block executed (not
 // connected) on the current tip, Q = local queries (incl. the block's own transactions and
 // addresses), M = the block's transactions handed to the pool, R = a block Y that shares a transaction
 // with X was connected and then rolled back by the arrival of S (only once; without R the node
@@ -272,6 +272,8 @@ func histories() []string {
 			out = append(out, string(a)+string(b))
 		}
 	}
+	// H = a block with a very large write set (5000 distinct keys) executed (not connected) on the tip
+	out = append(out, "H", "HE", "RH")
 	return out
 }
 
@@ -465,6 +467,7 @@ type world struct {
 	cfgName     string
 	S, Y0       *types.Block
 	ZT, ZS      *types.Block
+	HT, HS      *types.Block // blocks with a very large write set (more than 4096 distinct keys)
 	addrs       []string
 	fillerY     *types.Transaction
 }
@@ -489,6 +492,12 @@ func run(env *lidx.Env, cfgName string) {
 	must("S", err)
 	must("S on producer", env.P.Deliver(vnode.Broadcast, w.S, "producer"))
 	w.ZS, err = env.Make(w.S, []*types.Transaction{env.Transfer(lidx.A, lidx.E, 10), env.None(lidx.A)}, treex.Bits[0])
+	if err == nil {
+		w.HT, err = env.Make(T, []*types.Transaction{env.Vlx(lidx.A, "bulk:5000")}, treex.Bits[0])
+	}
+	if err == nil {
+		w.HS, err = env.Make(w.S, []*types.Transaction{env.Vlx(lidx.A, "bulk:5000")}, treex.Bits[0])
+	}
 	must("Z on S", err)
 	w.addrs = append([]string{}, lidx.Addrs[:]...)
 	w.addrs = append(w.addrs, address.ExecAddress("none"), address.ExecAddress("manage"))
@@ -547,6 +556,14 @@ func prior(w *world, X, Y *types.Block, hist string) (*vnode.Node, string) {
 			}
 			if _, _, err := util.ExecBlock(n.Client, p.StateHash, clone(z), true, false, false); err != nil {
 				return n, "activity E failed: " + err.Error()
+			}
+		case 'H':
+			z, p := w.HS, w.S
+			if !sDone {
+				z, p = w.HT, w.env.Tip()
+			}
+			if _, _, err := util.ExecBlock(n.Client, p.StateHash, clone(z), true, false, false); err != nil {
+				return n, "activity H failed: " + err.Error()
 			}
 		case 'Q':
 			_, _, th := hashes(w.env.Cfg, X)
